@@ -40,6 +40,7 @@ def _each(lo, hi, new, old):
 contract(CM + 'update_all_cluster_statistics', props=['C12', 'C13', 'C09', 'C19'],
          params=dict(model='obj:ModelState', training_data='arr2[real]'), returns='obj:ModelState',
          requires=["wf(model)", "len(model._point_labels) == training_data.shape[0]",
+                   ("typestate:fresh-labelling-or-repopulated", "model._phase == 0 or model._phase == 1 or model._phase == 4"),
                    # every cluster owns at least one point (the phase before -- repopulation -- guarantees >= 2 from round 2 on)
                    "forall(0, len(model.clusters), lambda k: len(model.clusters[k]._member_points) > 0)"],
          ghost={'kind:cluster_members': 'pdict[int]', 'cumulative_posts': True},
@@ -53,7 +54,7 @@ contract(CM + 'update_all_cluster_statistics', props=['C12', 'C13', 'C09', 'C19'
                   ("wf:K-clusters", "len(result.clusters) == result.arguments.num_clusters"),
                   ("wf:membership", "membership_ok(result)"),
                   ("wf:distinct", "distinct_clusters(result)"),
-                  ("wf", "wf(result)")],
+                  ("wf", "wf(result)"), ("def:typestate", "result._phase == 2")],
          loops={1: dict(inv=[], modifies=['cluster_members']),
                 2: dict(inv=["len(updated_model.clusters) == len(model.clusters)",
                              ] + _each('0', 'cluster_id', 'updated_model.clusters[k]', 'model.clusters[k]') + [
@@ -139,7 +140,7 @@ _MODEL_UNCHANGED = ("unchanged(model, model.clusters, model._point_labels) and "
 
 contract(CM + 'repopulate_empty_clusters', props=['C08', 'C13', 'C09', 'C19', 'C20'],
          params=dict(model='obj:ModelState'), returns='obj:ModelState',
-         requires=["wf(model)", _M + " >= 1",
+         requires=["wf(model)", _M + " >= 1", ("typestate:relabelled", "model._phase == 4"),
                    "forall(0, len(model.clusters), lambda k: not isnone(model.clusters[k].computed_covariance))"],
          # RuntimeError (donor shortage) is raised by _find_point_donor when the pool's first candidate has < 2m points;
          # the state given is untouched in that case as well
@@ -180,6 +181,7 @@ contract(CM + 'repopulate_empty_clusters', props=['C08', 'C13', 'C09', 'C19', 'C
                    "len(result.clusters) == len(model.clusters) and same(result.arguments, model.arguments)"),
                   ("points-move-only-from-a-2m-donor-into-an-underpopulated-cluster", _MOVED.format(nl='result._point_labels', ol=_OL)),
                   ("result-is-well-formed", "wf(result)"),
+                  ("def:typestate", "result._phase == ite(same(result, model), model._phase, 1)"),
                   ("caller-state-not-modified", _MODEL_UNCHANGED)],
          loops={1: dict(inv=["forall(lambda k: in_set(k, clusters_to_repopulate) == (0 <= k and k < _k and csize(model, k) < 2))",
                              "len(clusters_to_repopulate) >= 0",
